@@ -2938,6 +2938,19 @@ pub fn reset_stack(mut stack: StackFrame<State>, level: usize) -> Result<crate::
     Ok(trace)
 }
 
+/// Unwinds the frames that a failed call left above `level` so that `thread` can be used again
+#[doc(hidden)]
+pub fn reset_stack_after_error(thread: &Thread, level: usize, mut err: Error) -> Error {
+    let mut context = thread.context();
+    let stack = StackFrame::<State>::current(&mut context.stack);
+    if let Ok(new_trace) = reset_stack(stack, level) {
+        if let Error::Panic(_, ref mut trace) = err {
+            *trace = Some(new_trace);
+        }
+    }
+    err
+}
+
 struct ProgramCounter<'a> {
     instruction_index: usize,
     instructions: &'a [Instruction],
